@@ -32,6 +32,23 @@ Theorem C03_any_satisfied_list_matches : forall ai ev g nc num,
 Proof. exact conditional_entry_matches. Qed.
 Print Assumptions C03_any_satisfied_list_matches.
 
+(** the complete characterisation: a group lists an event IFF an unconditional name of the group resolves to the
+    event's number, or ONE conditional entry resolves to it and ALL of that entry's conditions hold (AND inside an
+    entry, OR across entries, and no other way to match) *)
+Theorem C03_group_matches_iff : forall ai ev g,
+  group_matches ai ev g = true <->
+  ((exists name num, In name (g_names g) /\ lookup_name (ai_table ai) name = Some num /\ ev_nr ev = sysnum ai num) \/
+   (exists nc num, In nc (g_nwc g) /\ lookup_name (ai_table ai) (nc_name nc) = Some num /\ ev_nr ev = sysnum ai num /\
+                   forall c, In c (nc_conds nc) -> rel (c_op c) (arg ev (c_arg c)) (c_val c) = true)).
+Proof. exact group_matches_iff. Qed.
+Print Assumptions C03_group_matches_iff.
+
+(** a single condition that does not hold blocks its entry, whatever the entry's other conditions say *)
+Theorem C03_failing_condition_blocks_entry : forall ai ev nc c,
+  In c (nc_conds nc) -> rel (c_op c) (arg ev (c_arg c)) (c_val c) = false -> nwc_matches ai ev nc = false.
+Proof. exact failing_condition_blocks_entry. Qed.
+Print Assumptions C03_failing_condition_blocks_entry.
+
 (** When no list of an entry is satisfied the decision continues exactly as if the entry were absent. *)
 Theorem C03_unmatched_entry_as_absent : forall k ai pol ev j g i nc,
   nth_error (p_groups pol) j = Some g -> nth_error (g_nwc g) i = Some nc -> nwc_matches ai ev nc = false ->
